@@ -26,7 +26,7 @@ MUTGEN = os.path.join(VERIF, ".build", "bin", "mutgen")
 Q = "C01 C02 C03 C09 C10 C13 C06 C14".split()
 MAP = {
     "trie/slimtrie_query.go": Q,
-    "trie/slimtrie_getnode.go": Q,
+    # trie/slimtrie_getnode.go holds only getIthInner, which nothing calls (0% coverage): not swept
     "trie/slimtrie_vlen_array.go": Q + ["C04", "C19"],
     "trie/slimtrie_vars.go": Q + ["C04", "C19"],
     "trie/bitmap.go": Q + ["C05"],
@@ -124,6 +124,7 @@ def stage1_one(d, m):
             if rc != 0:
                 if rc == -9 or "test timed out" in out:
                     timeouts.append(p)
+                    break  # a hanging mutant hangs everywhere; stage 2 looks at it again
                 else:
                     return "killed-other", p + ": " + out[-300:]
         if timeouts:
